@@ -3,6 +3,7 @@ package slog
 import (
 	"context"
 	"errors"
+	"fmt"
 	"io"
 	"log"
 	"time"
@@ -61,8 +62,11 @@ func Println(args ...any) {
 		logctx(AlwaysLevel, "")
 		return
 	}
-	var msg string
-	msg, args = args[0].(string), args[1:] //nolint:errcheck,revive
+	msg, ok := args[0].(string)
+	if !ok {
+		msg = fmt.Sprint(args[0]) // don't panic on Println(42) or Println(err)
+	}
+	args = args[1:]
 	logctx(AlwaysLevel, msg, args...)
 }
 
